@@ -32,9 +32,41 @@ Record bentry := mk_bentry {
 
 Definition verdict_ok (v : verdict) : bool := match v with VOk _ => true | VStuck _ _ => false end.
 
+(* ---- which calls are within contract: decided HERE, not by the generator ------------------------------------
+   [be_valid] is the generator's opinion (lib/p_c12.py reports from it); the theorems use [in_contract], which
+   mirrors the documentation of src/masking/ascon-masked-word.h and ascon-masked-state.h:
+     ascon_masked_word_xN_load_partial   "size Number of bytes to load between 1 and 7"
+     ascon_masked_word_xN_store_partial  size 0..7 (8 bytes are stored with ascon_masked_word_xN_store)
+     ascon_masked_word_xN_replace        size 0..7 ("number of bytes from the top of the masked word to copy";
+                                         the callers pass the length of a partial block)
+     ascon_masked_word_pad               "offset Offset of the padding marker (0 to 7)"
+     ascon_xN_permute                    first_round 0..12 (documented "between 0 and 11"; 12 = no round, used by tests)
+   Every other function has no integer argument (the keys of their argument records - alias, null - select a
+   calling shape that is always allowed).  A function this predicate does not know, or a record without the
+   expected key, is IN contract: its run must not be stuck. *)
+Local Open Scope string_scope.
+Definition ends_with (suffix s : string) : bool :=
+  let ls := String.length s in let lf := String.length suffix in
+  Nat.leb lf ls && String.eqb (substring (ls - lf) lf s) suffix.
+Fixpoint arg_of (k : string) (args : list (string * N)) : option N :=
+  match args with [] => None | (k', v) :: r => if String.eqb k k' then Some v else arg_of k r end.
+Definition arg_between (k : string) (lo hi : N) (args : list (string * N)) : bool :=
+  match arg_of k args with Some v => N.leb lo v && N.leb v hi | None => true end.
+Definition in_contract (fn : string) (args : list (string * N)) : bool :=
+  if ends_with "_load_partial" fn then arg_between "size" 1 7 args
+  else if ends_with "_store_partial" fn then arg_between "size" 0 7 args
+  else if ends_with "_replace" fn then arg_between "size" 0 7 args
+  else if String.eqb fn "ascon_masked_word_pad" then arg_between "offset" 0 7 args
+  else if ends_with "_permute" fn then arg_between "first_round" 0 12 args
+  else true.
+Local Close Scope string_scope.
+
 (* an entry is fine when the run was not stuck, or the arguments are an
    out-of-contract probe (size = 8 for replace/pad, first_round = 13 ...) *)
-Definition entry_ok (e : bentry) : bool := negb (be_valid e) || verdict_ok (be_verdict e).
+Definition entry_ok (e : bentry) : bool := negb (in_contract (be_function e) (be_args e)) || verdict_ok (be_verdict e).
+(* the generator's flag agrees with the predicate (so that what lib/p_c12.py reports from build/bounds.json is
+   what the theorem is about) *)
+Definition valid_flag_ok (e : bentry) : bool := Bool.eqb (be_valid e) (in_contract (be_function e) (be_args e)).
 
 (* the pinned defect the table is known to contain until fixes/C12-masked-word-x3-zero.patch is applied *)
 Definition is_x3_zero_max3 (e : bentry) : bool :=
